@@ -164,6 +164,9 @@ func ruleBranch(c *Ctx) {
 			if e, ok := p.Ret.Results[1].(*ssa.Const); !ok || !e.IsNil() {
 				continue // error return
 			}
+			if p.contradictsConstGuard() {
+				continue // e.g. the value of `a && b` is the constant false on the way through !a, yet the branch on it is taken
+			}
 			for _, sp := range shapesWithHelpers(p, p.Ret.Results[0], 2) {
 				sh, p := sp.Shape, sp.Path
 				if len(sh) == 0 {
@@ -334,7 +337,8 @@ func pathBounds(p *pathInfo, lv linear, cls classifier) (lo, hi *int64, k int64,
 	}
 	// classifier results excluded so far (switch lowering: t==1 false, t==2 true …)
 	for _, g := range p.Guards {
-		bo, ok := g.Cond.(*ssa.BinOp)
+		// the value of a short-circuit expression is, on this path, the operand evaluated last
+		bo, ok := p.resolve(g.Cond).(*ssa.BinOp)
 		if !ok {
 			continue
 		}
